@@ -1660,7 +1660,7 @@ theorem finsFromYaml_map (fs : List Bytes) : finsFromYaml (.sequence (fs.map Nod
   unfold finsFromYaml
   induction fs with
   | nil => rfl
-  | cons f fs ih => simp [scalarOf, ih]
+  | cons f fs ih => simp [scalarOf, Gen.Codec.yamlScalarIsNodeText, ih]
 
 theorem mfp_ns (v : Bytes) (rest : List Node) (md : Meta) :
     metaFromPairs (.scalar kNamespace :: .scalar v :: rest) md = metaFromPairs rest { md with ns := v } := by
